@@ -77,3 +77,12 @@ package snappy
 //@   modifies heap
 //@   ensures 0 <= result0 && result0 <= len(b) && 0 <= x.offset
 //@   loop 0 invariant 0 <= x.offset
+
+// A writer handed out by the codec is configured by THIS codec, whatever a pooled writer did before: framing follows
+// c.Framing, the destination is w, and (Reset contract) nothing of a previous stream is left in it.
+//@ func (*Codec).NewWriter
+//@   option noframe
+//@   modifies heap
+//@   ensures typeis(result, "*snappy.writer") && !isnil(deref(result, "writer")) && deref(result, "writer").xerialWriter != nil
+//@   ensures deref(result, "writer").xerialWriter.framed == (c.Framing == Framed)
+//@   ensures deref(result, "writer").xerialWriter.writer == w && deref(result, "writer").xerialWriter.nbytes == 0
